@@ -268,6 +268,20 @@ func runC10(c *Ctx) {
 			c.obI("R10.2", r, "override-recorded-for-any-number-of-values", !pathExists(sqp, nil, r, nil, records), "SetQueryParam leaves an entry under the name on every successful call, also for an empty list of values: the caller's override is recognised by key presence", "a successful SetQueryParam can leave the name absent (e.g. values added one by one: none for an empty list) — the pattern's or base path's value of that name comes back")
 		}
 	}
+	// a path parameter given to the request is always recorded: substitution runs over the JOINED base path and pattern,
+	// so whether the pattern alone mentions the name says nothing about whether it is needed
+	if spp := p.FnOpt("(*rt/client.request).SetPathParam"); spp != nil && len(spp.Params) >= 3 {
+		records := func(in ssa.Instruction) bool {
+			mu, ok := in.(*ssa.MapUpdate)
+			return ok && (vFieldLoad(clientReqT, "pathParams", nil)(mu.Map) || vFieldLoadO(clientReqT, "pathParams")(mu.Map)) && sameOrigins(mu.Key, spp.Params[1])
+		}
+		for _, r := range returnsOf(spp) {
+			if len(r.Results) != 1 || !isNilConst(r.Results[0]) {
+				continue
+			}
+			c.obI("R10.1", r, "path-parameter-always-recorded", !pathExists(spp, nil, r, nil, records), "every successful SetPathParam records the value under the name (no filtering against the pattern: the base path can carry placeholders too)", "a successful SetPathParam can leave the parameter unrecorded: its placeholder reaches the wire unsubstituted")
+		}
+	}
 	// setting a parameter of the request's query: SetQueryParam(k, v...) or, spelled out, r.query[k] = v
 	type valuesOp struct {
 		In       ssa.Instruction
@@ -423,6 +437,21 @@ func runC10(c *Ctx) {
 				continue
 			}
 			c.obI("R10.3", r, "target-"+strings.ToLower(fld.f)+"-always-assigned", !pathExists(ch, nil, r, nil, isOneOf(sts...)), "every request createHttpRequest hands out has had "+fld.t+"."+fld.f+" assigned from the runtime, on every path", "a request can be handed out with the "+fld.f+" the URL builder left in it")
+		}
+	}
+	// the URL buildHTTP produced is kept as it is — only its Scheme and Host fields are assigned: it is not re-resolved,
+	// re-parsed or replaced (ResolveReference / JoinPath / Parse clean dot segments, which substituted values may contain)
+	{
+		for _, st := range fieldStores(ch, "net/http.Request", "URL") {
+			c.obD("R10.1", st, "built-url-not-replaced", false, "createHttpRequest never replaces the request's URL", "the request URL is replaced by "+describe(st.Val))
+		}
+		for _, ci := range allCalls(ch) {
+			switch n := calleeName(ci.Common()); n {
+			case "(*net/url.URL).ResolveReference", "(*net/url.URL).JoinPath", "net/url.JoinPath", "(*net/url.URL).Parse", "path.Clean", "path.Join":
+				if ci.Parent() == ch {
+					c.obD("R10.1", ci, "built-url-not-re-resolved", false, "after buildHTTP the path of the URL is final: nothing in createHttpRequest cleans, joins or resolves it again (a path value of '.' or '..' would be lost)", baseName(n)+" is applied while completing the request URL")
+				}
+			}
 		}
 	}
 	ps := p.Fn("(*rt/client.Runtime).pickScheme")
